@@ -34,12 +34,19 @@ package loadbalance
 //@   range 1 invariant members: forall(i, 0, len(keys), keys[i] != nil && hadkey(syncmapp(sessions), keys[i]) && !ufb("session.closed", keys[i]))
 //@   range 1 invariant closed-so-far: len(keys) == 0 ==> foralls(s, getty.Session, visited(s) ==> ufb("session.closed", s))
 
+//@ ext strings.Split
+//@   ensures true
+
 //@ func XidLoadBalance
 //@   prop C19
 //@   requires sessions != nil
 //@   ensures live: result != nil ==> hadkey(syncmapp(sessions), result) && !ufb("session.closed", result)
 //@   ensures nil-only-if-none-open: result == nil ==> foralls(s, getty.Session, hadkey(syncmapp(sessions), s) ==> ufb("session.closed", s))
 //@   range 1 invariant none-yet: session == nil
+//@   range 1 invariant no-match-so-far: foralls(s, getty.Session, visited(s) && !ufb("session.closed", s) ==> ufs("session.addr", s) != ipPort)
+//@   plet parts := callres("Split#1", 0)
+//@   plet ipport := parts[0] + ":" + parts[1]
+//@   ensures sticky: len(parts) == 3 ==> foralls(s, getty.Session, hadkey(syncmapp(sessions), s) && !ufb("session.closed", s) && ufs("session.addr", s) == ipport ==> result != nil && ufs("session.addr", result) == ipport)
 //@   range 1 invariant only-closed-removed: foralls(s, getty.Session, hadkey(syncmapp(sessions), s) && !haskey(syncmapp(sessions), s) ==> ufb("session.closed", s))
 
 //@ func LeastActiveLoadBalance
